@@ -61,14 +61,36 @@ func TestVerifC10(t *testing.T) {
 			tree := w.genTree(12)
 			var hist []string
 			crashes := 0
+			repairLater := false
 			for i := 0; i < nBackups; i++ {
+				if repairLater && i > 0 {
+					// same tree as the crashed attempt, then repair index: the orphaned packs become duplicates
+					if !w.backupOK(tree, BackupOptions{}, fmt.Sprintf("backup %d (after crash)", i)) {
+						return
+					}
+					var err error
+					w.free(func() { err = w.cmdRepairIndex(w.newProc("repair-index"), false) })
+					if err != nil {
+						r.Fail("history", "repair-index-failed", "repair index failed: %v", err)
+						return
+					}
+					hist = append(hist, "backup", "repair-index")
+					repairLater = false
+					tree = w.mutateTree(tree)
+					continue
+				}
 				if tp.Choose(3) == 0 {
 					f := fault{Kind: "crash", At: 1 + tp.Choose(14)}
 					w.backupFaulty(tree, f)
 					w.recoverLocks("after crashed backup")
 					hist = append(hist, "backup("+f.String()+")")
 					crashes++
-					if tp.Choose(2) == 0 {
+					switch tp.Choose(3) {
+					case 1:
+						// index the orphaned packs only after the next backup has stored the same blobs again
+						repairLater = true
+						continue
+					case 0:
 						var err error
 						w.free(func() { err = w.cmdRepairIndex(w.newProc("repair-index"), false) })
 						if err != nil {
